@@ -32,6 +32,24 @@ RULE = ("a case is a call history on ONE FFT object (`fft <f64|f32> ; op ; … ;
         "than a block, one before / exactly at / one after a block boundary (first, middle, last block), inside a block, around the "
         "product length (histogram `blocks:*`, `dest:block-relative`); the former F11 inputs are replayed from corpus/C04.txt and any "
         "inexact result inside the literal envelope is a VIOLATION (there is no known finding any more). "
+        "Wave 3 (after seeded C04_m10: fft_inv_into overwrote instead of adding in its n == 1 branch): a case is now a program over a POOL "
+        "of 4 live objects (`@k op` = call on object k; `cl j k` clone, `cf j k` clone_from into a used destination, `df k` default(), "
+        "`nw k` new(), `tk j k` std::mem::take) - one bulk case in six is spread over the pool with pool operations in between, so "
+        "objects are used interleaved and copies taken mid-history are both used afterwards (histogram `pool:*`); stream `degenerate`: "
+        "EVERY entry point (multiply_into, fft, fft_into, fft_inv, fft_inv_into, the three composites) at transform sizes 1, 2, 4, 8 "
+        "and the auto-size n = 0 (`fft(v, 0)` for lengths 0..4; the composites accept n = 0 when both transforms choose the same "
+        "size), operands of length 0..4, destinations of length 0, 1, 2, n-1, n, n+1, 2n, 2n+1, ALL NON-ZERO, all 4 constructor "
+        "kinds, 5 light histories; new views: `add=ok` for fft_into / fft_inv_into (destination += what fft / fft_inv returns on a "
+        "brand-new object, bit for bit resp. value for value, rest of the destination untouched) and `eq=true ne=false peq=ok` for "
+        "fft (PartialEq of Complex<F>, both methods, against the fresh object's output and on every pair of the first 8 bins); "
+        "op `fx rpn n dest v0 v1 ...` and stream `spectral` (46 expression templates x sizes 1..256 quick / 1..1024 thorough x both "
+        "float types): forward transforms of up to 10 operands, a per-bin expression in reverse Polish notation over the PUBLIC "
+        "operators of Complex<F> - `+ - * /` in operator AND assign form, Neg, conj, abs2, abs, Mul<F>/MulAssign<F>/Div<F>/DivAssign<F> "
+        "by a scalar, Copy / .clone() / clone_from operands, ZERO / default() / ONE / I -, then fft_inv_into into a destination of any length; "
+        "expected = the same expression evaluated exactly in Z[i][x]/(x^n - 1) (`*` = cyclic convolution, conj = index reversal, "
+        "abs2 = autocorrelation, `/` by the spectrum of a unit monomial = cyclic shift; i128 in the harness, Lean `SExpr.expected` "
+        "on the S side); the envelope is carried through the expression (every product charged max(S1,S2)^2*min(L1,L2), sums add; "
+        "for one product of two operands exactly the literal envelope). "
         "non-trivial = distinct in-domain case whose last call carries at least 3 coefficients")
 ASSUMPTIONS = [
     "the Lean model of rlib_fft is hand-written; it is tied to the code by running both on the same call histories",
@@ -40,6 +58,13 @@ ASSUMPTIONS = [
     "IEEE rounding error of the operation sequence stays below 0.5 inside the envelope max^2*min(len) <= 1e12 (f64) / 1e3 (f32): TESTED "
     "(differentially, at the envelope boundary), NOT proved",
     "harness built with overflow-checks=true",
+    "views computed by independent oracles INSIDE the harness (not by the Lean model): `oracle=` (i128 schoolbook convolution; for `fx` "
+    "exact arithmetic in Z[i][x]/(x^n-1)), `add=` (destination + output of the non-accumulating sibling on a brand-new object), "
+    "`peq=` (== / != of Complex<F> against the component-wise float comparison); the Lean side prints the proved specification",
+    "`fft_into_adds` needs `x + (ZERO + y) = x + y`: true in exact arithmetic (proved for the exact instance), in IEEE arithmetic false only "
+    "for x = y = -0.0; destinations are built from i32 values and are never -0.0 (TESTED by the `add=ok` view, bit for bit)",
+    "the envelope rule for spectral expressions (`SExpr.weight`) is the engine's reading of the property for expressions with more than "
+    "one product: conservative (sums add, every product charged max^2*min), a single product is the literal envelope",
 ]
 MANIFEST = {
     "level": "proof (partial)",
@@ -58,7 +83,14 @@ MANIFEST = {
              "multiply_into adds exactly the integer convolution sum_{s+t=u} a_s b_t for all lengths and signs (`multiply_exact`, "
              "`multiply_into_exact`; packing a+ib, conjugate-symmetry unpacking, half-size inverse; the block recursion by additivity of "
              "the convolution in the long operand, `conv_block_additive`, `conv_comm`, `multiply_blocks_exact`), forward-pointwise-inverse = multiply "
-             "(`fft_mul_inv_eq_multiply`). The hand-written model is tied to rlib_fft by a differential run on every check."),
+             "(`fft_mul_inv_eq_multiply`). Wave 3: Level A - fft_inv_into adds what fft_inv returns at EVERY size incl. the one-bin branch "
+             "(`fft_inv_into_adds`), fft_into adds what fft returns (`fft_into_adds`), fft(v, 0) is fft(v, ceil-pow2) (`fft_autosize`), every "
+             "object of a pool of live objects used interleaved with clone / clone_from / default / new / mem::take between them answers "
+             "like a brand-new one (`pool_objects_independent`), any expression over the operators of Complex<F> applied to spectra is "
+             "history independent (`spectral_history_independent`); Level B - such an expression followed by fft_inv_into adds exactly the "
+             "integer sequence the same expression denotes in Z[i][x]/(x^n-1) (`spectral_exact`: cyclic convolution theorem "
+             "`dft_cyc_conv`, conjugation = index reversal, unit-monomial division = shift, linearity). "
+             "The hand-written model is tied to rlib_fft by a differential run on every check."),
     "note": ("PARTIAL: NOT proved, only TESTED differentially on every run: that the IEEE-754 rounding error of this operation sequence "
              "(binary64 / binary32, libm sin/cos) stays below 0.5 inside the envelope, i.e. that the float instance rounds to the value the "
              "exact instance is proved to have. Tested at the envelope boundary max^2*min(len) = 1e12 (f64) / 1e3 (f32) with 8 coefficient "
@@ -130,12 +162,22 @@ def _vec_len(tok):
 _blocks = {"cases": 0, "ratio>=1000": 0, "max_ratio": 0}
 
 
+def _last_tokens(case):
+    """tokens of the measured (last) step without its `@k` object prefix"""
+    last = case.rsplit(";", 1)[-1].split()
+    if last and last[0].startswith("@"):
+        last = last[1:]
+    return last
+
+
 def nontrivial(case, rec):
-    last = case.split(";")[-1].split()
+    last = _last_tokens(case)
     if not last:
         return False
-    if last[0] == "u":
+    if last[0] in ("u", "cl", "cf", "df", "nw", "tk"):
         return False
+    if last[0] == "fx":
+        return sum(0 if t == "-" else t.count(",") + 1 for t in last[4:]) >= 3
     if last[0] in ("m", "mi") and len(last) >= 3:
         # (also counts, per run, the measured calls that take the block loop of multiply_into; reported by extra())
         la, lb = _vec_len(last[1]), _vec_len(last[2])
@@ -168,7 +210,7 @@ def extra(ctx):
         sel = []
         with open(cases_path) as f:
             for line in f:
-                last = line.rsplit(";", 1)[-1].split()
+                last = _last_tokens(line)
                 if last and (last[0] in DIAG_OPS or "outside" in line[:0]) and len(line) < 200000:
                     sel.append(line)
         # out-of-envelope products: recognised by the model's spec being `fresh=same` only -> cheap proxy: take the tail stream
